@@ -1,4 +1,6 @@
 #![allow(clippy::all)]
+#[cfg(mos_verif_threads)]
+use mos_simrt::std_shim as std;
 /// Taken from https://github.com/simmons/cbm which I don't want to include as a full dependency since it brings in an
 /// older version of clap.
 use std::char;
